@@ -32,6 +32,7 @@ type btr struct {
 	tabsAcc string              // local slice `tabs := []column{}`
 	tabVar  string              // value variable of `for _, ts := range vt.tabStop`
 	tabIdx  string              // index variable of `for i := len(vt.tabStop) - 1; i >= 0; i -= 1`
+	penVar  string              // local holding a copy of the pen (`pen := vt.cursor.Style`)
 	unknown int
 }
 
@@ -685,6 +686,19 @@ func (t *btr) assign(s *ast.AssignStmt) string {
 			case r == "append(vt.tabStop, vt.cursor.col)":
 				return ".tabsPushCol"
 			}
+		}
+	}
+	// pen := vt.cursor.Style ... vt.cursor.Style = pen (function level only; the local is never assigned again:
+	// any other statement that mentions it is outside the language)
+	if len(t.loops) == 0 && t.tabVar == "" && t.tabIdx == "" {
+		if id, ok := lhs.(*ast.Ident); ok && s.Tok == token.DEFINE && t.penVar == "" && t.src(rhs) == "vt.cursor.Style" {
+			if _, isLocal := t.locals[id.Name]; !isLocal && id.Name != "_" {
+				t.penVar = id.Name
+				return "(.prim .savePen)"
+			}
+		}
+		if s.Tok == token.ASSIGN && t.penVar != "" && t.src(lhs) == "vt.cursor.Style" && t.src(rhs) == t.penVar {
+			return "(.prim .restorePen)"
 		}
 	}
 	// ch := vt.activeScreen[r][c]
